@@ -517,7 +517,9 @@ class Update(object):
             masklen = prefix.split('/')[1]
             ip_hex = struct.pack('!I', netaddr.IPNetwork(prefix).value)
             masklen = int(masklen)
-            if 16 < masklen <= 24:
+            if masklen == 0:
+                ip_hex = b''
+            elif 16 < masklen <= 24:
                 ip_hex = ip_hex[0:3]
             elif 8 < masklen <= 16:
                 ip_hex = ip_hex[0:2]
